@@ -281,6 +281,9 @@ class Fn:
         if tok.startswith("'"):
             self.eat()
             return tok
+        if tok.startswith('"'):
+            self.eat()
+            return f"{tok}.toList"
         if re.match(r"^\d", tok):
             self.eat()
             m = re.match(r"^(\d[\d_]*)(usize|u64|u32)?$", tok)
@@ -339,6 +342,9 @@ class Fn:
         if tok == "&":
             self.eat()
             return self.pattern()
+        if tok == "_":
+            self.eat()
+            return "_", []
         mut = False
         if tok == "mut":
             self.eat()
@@ -426,6 +432,17 @@ class Fn:
                 continue
             if tok == "{":
                 out += self.block(ind)                # a bare block: its statements, in place
+                continue
+            if tok in ("eprintln", "println") and self.peek(1) == "!":
+                depth, k = 0, self.i + 2
+                while True:
+                    depth += {"(": 1, ")": -1}.get(self.t[k], 0)
+                    k += 1
+                    if depth == 0:
+                        break
+                if self.t[k] != ";":
+                    raise TranslateError("print macro used as a value")
+                self.i = k + 1                        # terminal output is not part of the modelled world
                 continue
             if hit:
                 self.i += hit[0]
@@ -522,12 +539,21 @@ class Fn:
                 self.eat("{")
                 out.append(f"{pad}match {e} with")
                 while self.peek() != "}":
-                    pat, _ = self.pattern()
+                    pats = [self.pattern()[0]]
+                    while self.peek() == "|":
+                        self.eat()
+                        pats.append(self.pattern()[0])
+                    pats = [p_ for p_ in pats if not p_.startswith("∅")]      # alternatives that cannot occur in the modelled world
                     self.eat("=>")
-                    out.append(f"{pad}| {pat} =>")
-                    if self.peek() != "{":
-                        raise TranslateError("match arm that is not a block")
-                    out += self.block(ind + 2)
+                    out.append(f"{pad}| {' | '.join(pats)} =>")
+                    if self.peek() == "{":
+                        out += self.block(ind + 2)
+                    elif self.peek() == "return":
+                        self.eat()
+                        e = self.expr()
+                        out.append(f"{pad}  return {self.ret(e)}")
+                    else:
+                        raise TranslateError("match arm that is neither a block nor a return")
                     if self.peek() == ",":
                         self.eat()
                 self.eat("}")
@@ -732,6 +758,73 @@ FUNCS = [
               "    (a b base : List (K × Copia.Reconcile.Fp D)) (trust_base : Bool) : List (K × Copia.Reconcile.Action) := Id.run do",
          calls={"reconcile_path": rp},
          paths={"Vec::new": "[]", "Action::Noop": "Copia.Reconcile.Action.noop"}),
+    dict(group="hub", file="src/bin/copia/serve.rs", name="safe_join", sig="fn safe_join(root: &Path, rel: &str) -> Option<PathBuf>",
+         lean="def safeJoin (root rel : List Char) : Option (List Char) := Id.run do",
+         calls={}, paths={"Path::new": "id", "Component::ParentDir": "Comp.parentDir", "Component::RootDir": "Comp.rootDir",
+                          "Component::Prefix": "∅", "Component::Normal": "Comp.normal", "Component::CurDir": "Comp.curDir"},
+         methods={"is_absolute": lambda r, a: f"({r}.head? == some '/')",
+                  "components": lambda r, a: f"(components {r})",
+                  "join": lambda r, a: f"({r} ++ '/' :: {a[0]})"}),
+    dict(group="hubsync", file="src/bin/copia/hub.rs", fn="hub_sync", sig=None,
+         name="hub_sync (the push loop: from the counters to the end of the `for`)",
+         slice=("let (mut sent, mut skipped, mut conflicts) = (0u64, 0u64, 0u64);", "hub kept a conflict-copy\");"), slice_close=2,
+         lean="def pushLoop {H : Type} [DecidableEq H] (hash : Copia.Hub.Bytes → H) (cname : Copia.Hub.HTree → List (List Char) → H → List (List Char))\n"
+              "    (hub : List (List Char) → Option H) (t : Copia.Hub.HTree) (local_ : List (List (List Char) × Copia.Hub.Bytes)) :\n"
+              "    Copia.Hub.HTree × Copia.HubSync.Counters := Id.run do\n"
+              "  -- world: the hub's tree (changed by `client.put`); `hub` is the listing taken at the start, `fp` a local file's bytes\n"
+              "  let mut hubtree := t",
+         epilogue=["return (hubtree, { sent := sent, skipped := skipped, conflicts := conflicts })"],
+         idents={"local": "local_", "fphash": "(hash fp)"},
+         verbatim=[("let rel_s = rel.to_string_lossy().into_owned();", "let rel_s := rel"),
+                   ("let expected = hub.get(&rel_s).map(|f| f.blake3);", "let expected := hub rel_s"),
+                   ("let committed = client.put(&rel_s, expected, &local_root.join(rel), fp.blake3)?;",
+                    "let r := Copia.HubSync.casPut hash cname hubtree rel_s expected fp\nhubtree := r.1\nlet committed := r.2")],
+         fields={"blake3": "blake3"}, calls={}, paths={},
+         subst=[("Some(fp.blake3)", "Some(fphash)")]),
+    dict(group="crash", file="src/bin/copia/bidir.rs", name="copy_atomic", sig="fn copy_atomic(src: &Path, dst: &Path) -> std::io::Result<()>",
+         lean="def copyAtomic {P C : Type} (side : Side) (dst : P) (content : C) : List (FsStep P C) := Id.run do\n"
+              "  -- world: the list of file-system-mutating calls issued so far; `content` is what the live source holds\n"
+              "  let mut steps : List (FsStep P C) := []",
+         epilogue=["return steps"], calls={}, paths={},
+         verbatim=[("if let Some(p) = dst.parent() { std::fs::create_dir_all(p)?; }", ""),
+                   ('let mut tmp = dst.as_os_str().to_owned(); tmp.push(".copia-tmp"); let tmp = PathBuf::from(tmp);', ""),
+                   ("std::fs::copy(src, &tmp)?;", "steps := steps ++ [FsStep.stage side dst content]"),
+                   ("std::fs::File::open(&tmp)?.sync_all()?;", "steps := steps ++ [FsStep.sync side dst]"),
+                   ("std::fs::rename(&tmp, dst)", "steps := steps ++ [FsStep.publish side dst]")]),
+    dict(group="crash", file="src/bin/copia/archive.rs", name="save", sig="fn save(&self, path: &Path) -> std::io::Result<()>",
+         lean="def archiveSave {P C : Type} (archive_file_exists : Bool) : List (FsStep P C) := Id.run do\n"
+              "  let mut steps : List (FsStep P C) := []",
+         retval="steps", calls={"Ok": lambda a: "OK"}, paths={},
+         methods={"exists": lambda r, a: "archive_file_exists"},
+         verbatim=[("if let Some(parent) = path.parent() { std::fs::create_dir_all(parent)?; }", ""),
+                   ('let tmp = { let mut s = path.as_os_str().to_owned(); s.push(".tmp"); PathBuf::from(s) };', ""),
+                   ("let json = serde_json::to_vec_pretty(self) .map_err(|e| std::io::Error::new(std::io::ErrorKind::InvalidData, e))?;", ""),
+                   ("let mut f = std::fs::File::create(&tmp)?;", "steps := steps ++ [FsStep.archStage]"),
+                   ("f.write_all(&json)?;", ""),
+                   ("f.sync_all()?;", "steps := steps ++ [FsStep.archSync]"),
+                   ('let mut bak = path.as_os_str().to_owned(); bak.push(".bak"); let _ = std::fs::rename(path, PathBuf::from(bak));', "steps := steps ++ [FsStep.archBak]"),
+                   ("std::fs::rename(&tmp, path)?;", "steps := steps ++ [FsStep.archPublish]"),
+                   ("if let Some(parent) = path.parent() { if let Ok(dir) = std::fs::File::open(parent) { let _ = dir.sync_all(); } }", "")]),
+    dict(group="deliver", file="src/bin/copia/incremental.rs", name="deliver_local",
+         sig="fn deliver_local(src: &Path, dst: &Path, mtime: Option<i64>) -> Result<u64, String>",
+         lean="def deliverLocal (chunks : List Copia.Deliver.Bytes) (mtime : Option Int) : List DStep := Id.run do\n"
+              "  -- world: the calls made on the destination's staging sibling and on the destination; the data arrives as `chunks`\n"
+              "  let mut steps : List DStep := []",
+         retval="steps", calls={"Ok": lambda a: "OK"}, paths={},
+         verbatim=[("let tmp = tmp_path(dst);", ""),
+                   ('let size = tokio::fs::copy(src, &tmp) .await .map_err(|e| format!("copy {}: {e}", src.display()))?;',
+                    "steps := steps ++ DStep.openTmp :: chunks.map DStep.chunk"),
+                   ('tokio::fs::rename(&tmp, dst) .await .map_err(|e| format!("rename {}: {e}", dst.display()))?;', "steps := steps ++ [DStep.publish]"),
+                   ("let _ = set_local_mtime(dst, t);", "steps := steps ++ [DStep.stamp]")]),
+    dict(group="deliver", file="src/bin/copia/incremental.rs", name="deliver_pull",
+         sig="fn deliver_pull( host: &str, remote_file: &str, local_dest: &Path, mtime: Option<i64>, ) -> Result<u64, String>",
+         lean="def deliverPull (chunks : List Copia.Deliver.Bytes) (mtime : Option Int) : List DStep := Id.run do\n"
+              "  let mut steps : List DStep := []",
+         retval="steps", calls={"Ok": lambda a: "OK"}, paths={},
+         verbatim=[("let tmp = tmp_path(local_dest);", ""),
+                   ("let size = transfer_file_from_remote(host, remote_file, &tmp).await?;", "steps := steps ++ DStep.openTmp :: chunks.map DStep.chunk"),
+                   ('tokio::fs::rename(&tmp, local_dest) .await .map_err(|e| format!("rename {}: {e}", local_dest.display()))?;', "steps := steps ++ [DStep.publish]"),
+                   ("let _ = set_local_mtime(local_dest, t);", "steps := steps ++ [DStep.stamp]")]),
     dict(group="bidir", file="src/bin/copia/bidir.rs", name="apply",
          sig="fn apply( root_a: &Path, root_b: &Path, rel: &Path, act: Action, a: &FpMap, b: &FpMap, host: &str, common: &mut FpMap, conflicts: &mut Vec<PathBuf>, ) -> std::io::Result<()>",
          lean="def apply {P C : Type} [DecidableEq P] [DecidableEq C] (ge : C → C → Bool) (cname : P → C → P)\n"
@@ -812,11 +905,15 @@ GROUP_HEAD = {
              "open Copia.Reconcile (lookup dedupAdj)\nopen Copia.Plan (trimEndSlash splitSlash)\nopen Copia.LoopSupport"),
     "bidir": ("import Copia.Gen.Decisions\nimport Copia.Model.LoopSupport\nimport Copia.Model.BidirSupport",
               "open Copia.Reconcile (lookup dedupAdj)\nopen Copia.LoopSupport\nopen Copia.Bisync (cIns cDel)\nopen Copia.BidirSupport"),
+    "hub": ("import Copia.Model.Hub", "open Copia.Hub (Comp components)"),
+    "hubsync": ("import Copia.Model.HubSync", ""),
+    "deliver": ("import Copia.Model.Deliver", "open Copia.Deliver (DStep)"),
+    "crash": ("import Copia.Model.Crash", "open Copia.Crash (Side FsStep)"),
     "delta": ("import Copia.Model.DeltaSupport",
               "open Copia.Delta Copia.DeltaSupport\nopen Copia.Checksum (Fast)"),
 }
 
-GROUPS = {"reconcile": "LoopsReconcile.lean", "plan": "LoopsPlan.lean", "bidir": "LoopsBidir.lean", "delta": "LoopsDelta.lean"}
+GROUPS = {"reconcile": "LoopsReconcile.lean", "plan": "LoopsPlan.lean", "bidir": "LoopsBidir.lean", "delta": "LoopsDelta.lean", "hub": "LoopsHub.lean", "hubsync": "LoopsHubSync.lean", "crash": "LoopsCrash.lean", "deliver": "LoopsDeliver.lean"}
 
 
 def translate(group):
